@@ -112,7 +112,7 @@ mechanisms:
         introspection_endpoint:
           url: http://introspect/introspect
         token_source:
-          - header: X-Token
+          - header: x-token # spelled as yaml authors do; header names are case-insensitive
           - query_parameter: tok_q
         assertions:
           issuers: [ "iss1" ]
@@ -123,7 +123,7 @@ mechanisms:
         introspection_endpoint:
           url: http://introspect/introspect
         token_source:
-          - header: X-Token
+          - header: x-token # spelled as yaml authors do; header names are case-insensitive
           - query_parameter: tok_q
         assertions:
           issuers: [ "iss1" ]
